@@ -223,7 +223,9 @@ def cases(tier):
     thorough = tier == "thorough"
 
     def G(name, probs, timeout_s=1200):
-        out.append(Case(name, run_group, {"probs": probs}, timeout_s=timeout_s))
+        # (thorough tier: the longest cases take ~14 min on the 16-core sandbox; a generous cap so that a loaded machine does not turn
+        # them into inconclusive results)
+        out.append(Case(name, run_group, {"probs": probs}, timeout_s=3 * timeout_s if thorough else timeout_s))
 
     for n in (1, 2):
         for kind in ml.leaves(n):
